@@ -4,7 +4,23 @@ use std::process::{Command, Stdio};
 
 pub struct Out { pub code: i32, pub stdout: Vec<u8>, pub stderr: String }
 
+/// log verbosity of a run: a function of the invocation (so that a case replays identically), spread over none / -v / -vv / -vvv —
+/// neither stdout nor the exit status may depend on it
+pub fn with_verbosity(args: &[String], stdin_len: usize) -> Vec<String> {
+    use std::hash::{Hash, Hasher};
+    if args.is_empty() || args.iter().any(|a| a.starts_with("-v") || a.starts_with("-q") || a == "--verbose" || a == "--quiet") { return args.to_vec(); }
+    let mut h = std::collections::hash_map::DefaultHasher::new();
+    // file names differ from run to run: hash the options only
+    for a in args { if !a.contains('/') { a.hash(&mut h); } }
+    stdin_len.hash(&mut h);
+    let flag = ["", "", "-v", "-vv", "-vvv"][(h.finish() % 5) as usize];
+    let mut out = args.to_vec();
+    if !flag.is_empty() { out.insert(1, flag.to_string()); }
+    out
+}
+
 pub fn run_sfs(bin: &str, args: &[String], stdin: &[u8]) -> Out {
+    let args = &with_verbosity(args, stdin.len());
     let mut child = Command::new(bin)
         .args(args)
         .env("SFS_ALLOW_STDIN", "1").env("RUST_BACKTRACE", "0")
@@ -20,6 +36,7 @@ pub fn run_sfs(bin: &str, args: &[String], stdin: &[u8]) -> Out {
 
 /// like `run_sfs`, the input arriving on stdin in two pieces with a pause in between (the first `read` ends after `k` bytes)
 pub fn run_sfs_split(bin: &str, args: &[String], stdin: &[u8], k: usize) -> Out {
+    let args = &with_verbosity(args, stdin.len());
     let mut child = Command::new(bin)
         .args(args)
         .env("SFS_ALLOW_STDIN", "1").env("RUST_BACKTRACE", "0")
